@@ -486,6 +486,10 @@ empty @is_you(int n) { int[] a = [1, 2, 3]; byte b[n]; for (int i = 0; i < n; i 
 empty @is_you(int n) { write(depth(n)); }''', [[0], [1], [3]]),
     ('nested_literal_calls', '''int id(int v) { int[] t = [v, v, v]; return t[2]; }
 empty @is_you(int n) { int[] a = [id(n), id(n + 1), [id(2), 4][1]]; write(a[0]); write(a[1]); write(a[2]); bool[] f = [n > 0, id(n) > 1, true, false, true, false, true, false, n == 3]; write(f[8]); }''', [[0], [3]]),
+    ('byte_deepest', '''empty put(byte c) { write(c); }
+bool odd(int x, bool flip) { return (x %% 2 == 1) != flip; }
+empty @is_you(int n, int v) { bool b[n]; for (int i = 0; i < n; i += 1) { b[i] = false; } b[v] = true; for (int j = 0; j < n; j += 1) { write(b[j] is int); } put('!'); write(odd(v, false)); }''',
+     [[16, 15], [8, 0], [1, 0], [9, 8]]),
     ('indices', '''empty @is_you(int i, int n) { int[] a = [1, 2, 3]; write('a'); bool b[n]; write('b'); if (n > 0) { b[0] = true; } write(a[i]); a[i] += 1; write(a[i]); }''',
      [[0, 2], [2, 0], [3, 1], [-1, 1], [0, -1], [0, -8], [32767, 1], [0, 32767]]),
 ]
@@ -494,6 +498,7 @@ empty @is_you(int n) { int[] a = [id(n), id(n + 1), [id(2), 4][1]]; write(a[0]);
 def sweep_family(tier):
     items = []
     for name, src, argss in SWEEP:
+        src = src.replace('%%', '%')
         for a in argss:
             sa = [str(x) for x in a]
             m = families.min_stack(src, sa, hi=300)
